@@ -45,9 +45,12 @@ type QCfg struct {
 	// adapter faults (percent per call)
 	FEnq int `json:"fenq,omitempty"`
 	FDeq int `json:"fdeq,omitempty"`
+	Bound  int  `json:"bound,omitempty"`  // in-memory user queue with this capacity whose Enqueue waits while it is full
+	AckCap bool `json:"ackcap,omitempty"` // in-memory user queue that also has the acknowledgement methods (refuses half of the acknowledgements)
 	FAck int `json:"fack,omitempty"`
 	FAckLost  int `json:"facklost,omitempty"`  // percent of acknowledgements that are applied but answered "refused"
 	FAckStall int `json:"fackstall,omitempty"` // percent of acknowledgements that stall until the next Settle
+	FNoAckID  int `json:"fnoackid,omitempty"`  // percent of deliveries handed out without an acknowledgement id (the backend wants none for them)
 	// notification faults (distributed)
 	NDelay int `json:"ndelay,omitempty"` // max delay in time units
 	NDup   int `json:"ndup,omitempty"`   // percent duplicated
@@ -301,6 +304,10 @@ func panicMatches(s *Sub, e string) bool {
 
 func (p panicErr) Error() string { return expectedPanicText(p.v) }
 
+type codedErr struct{ v int }
+
+func (e codedErr) Error() string { return expectedErrText(e.v) }
+
 // fnBody is the worker function shared by the three worker kinds.
 func (wd *World) fnBody(j Job[int]) (int, error) {
 	v := j.Data()
@@ -327,6 +334,9 @@ func (wd *World) fnBody(j Job[int]) (int, error) {
 	wd.root.exit(wd, s)
 	switch s.Outcome {
 	case 1:
+		if v%2 == 1 {
+			return 0, codedErr{v} // same text, another dynamic type than errors.New
+		}
 		return 0, errors.New(expectedErrText(v))
 	case 2:
 		panic(expectedPanicText(v))
@@ -455,6 +465,10 @@ func (wd *World) bindQueue(qc QCfg, shared *simAdapter) *qh {
 	q.cfg = qc
 	q.boundAt = inv
 	q.boundRet = r.stamp()
+	if q.rq != nil {
+		q.rq.fdeq = qc.FDeq
+		q.rq.bound = qc.Bound
+	}
 	q.hb.Lock()
 	q.hb.Unlock()
 	wd.qs = append(wd.qs, q)
@@ -493,7 +507,7 @@ func (wd *World) bindPlain(b IWorkerBinder[int], kind int, qc QCfg) *qh {
 		var lq Queue[int]
 		if qc.Wrap {
 			q.rq = newRecQ(wd, queues.NewQueue[iJob[int]](), nil)
-			lq = b.WithQueue(q.rq)
+			lq = b.WithQueue(userQueue(q.rq, qc))
 		} else {
 			lq = b.BindQueue()
 		}
@@ -577,7 +591,7 @@ func (wd *World) bindErr(b IErrWorkerBinder[int], kind int, qc QCfg) *qh {
 	var lq ErrQueue[int]
 	if qc.Wrap {
 		q.rq = newRecQ(wd, queues.NewQueue[iErrorJob[int]](), nil)
-		lq = b.WithQueue(q.rq)
+		lq = b.WithQueue(userQueue(q.rq, qc))
 	} else {
 		lq = b.BindQueue()
 	}
@@ -617,7 +631,7 @@ func (wd *World) bindResult(b IResultWorkerBinder[int, int], kind int, qc QCfg) 
 	var lq ResultQueue[int, int]
 	if qc.Wrap {
 		q.rq = newRecQ(wd, queues.NewQueue[iResultJob[int, int]](), nil)
-		lq = b.WithQueue(q.rq)
+		lq = b.WithQueue(userQueue(q.rq, qc))
 	} else {
 		lq = b.BindQueue()
 	}
@@ -663,6 +677,11 @@ type recQ struct {
 	qi     int
 	lens   []lenObs
 	recLen bool
+	ackSeq, Acks int
+	bound   int // > 0: capacity of this user queue; Enqueue waits while it is full
+	Blocked int
+	fdeq   int // percent of dequeues on a non-empty queue that this (user-supplied) queue refuses
+	Refused int
 }
 
 type qItem struct {
@@ -677,6 +696,34 @@ type lenObs struct {
 }
 
 type recPQ struct{ *recQ }
+
+// recAQ is the same user-supplied in-memory queue with the acknowledgement methods of a
+// persistent adapter on top (the repository's own mock persistent queue is bound with
+// WithQueue in its suite, too).  It stores job objects, not bytes; whatever the worker
+// does with the acknowledgement side must not disturb the handles of those jobs.
+type recAQ struct{ *recQ }
+
+func (r recAQ) DequeueWithAckId() (any, bool, string) {
+	v, ok := r.recQ.Dequeue()
+	if !ok {
+		return nil, false, ""
+	}
+	r.ackSeq++
+	return v, true, "uq-" + itoa(r.ackSeq)
+}
+
+func (r recAQ) Acknowledge(id string) bool {
+	simrt.YieldAlways()
+	r.Acks++
+	return !simrt.Chance(50)
+}
+
+func userQueue(r *recQ, qc QCfg) IQueue {
+	if qc.AckCap {
+		return recAQ{r}
+	}
+	return r
+}
 
 func newRecQ(wd *World, f interface {
 	innerQ
@@ -704,7 +751,18 @@ func subOf(item any) int {
 // The wrapper serialises its own calls with a simulated mutex so that each
 // record is atomic with the inner operation it describes (the inner queue
 // serialises them anyway; Len stays outside, it is the lock-free read).
+// waitRoom: a bounded user queue makes the producer wait while it is full (backpressure).
+func (r *recQ) waitRoom() {
+	// (the wrapper's own bookkeeping, not the inner queue's Len: a readiness predicate must
+	// not run library code)
+	if r.bound > 0 && len(r.items) >= r.bound {
+		r.Blocked++
+		simrt.Block(func() bool { return len(r.items) < r.bound })
+	}
+}
+
 func (r *recQ) Enqueue(item any) bool {
+	r.waitRoom()
 	sub := subOf(item)
 	if r.serial {
 		r.mu.Lock()
@@ -730,6 +788,7 @@ func (r *recQ) Enqueue(item any) bool {
 }
 
 func (r recPQ) Enqueue(item any, priority int) bool {
+	r.waitRoom()
 	sub := subOf(item)
 	if r.serial {
 		r.mu.Lock()
@@ -753,6 +812,12 @@ func (r recPQ) Enqueue(item any, priority int) bool {
 
 func (r *recQ) Dequeue() (any, bool) {
 	r.mu.Lock()
+	if r.fdeq > 0 && !r.wd.root.epilogue && r.in.Len() > 0 && simrt.Chance(r.fdeq) {
+		// a transient refusal, as a user-supplied IQueue may produce: nothing leaves the queue
+		r.Refused++
+		r.mu.Unlock()
+		return nil, false
+	}
 	v, ok := r.in.Dequeue()
 	if ok {
 		r.wd.root.rec.qDeq(r.wd, r.qi, r.forget(v))
